@@ -34,6 +34,7 @@ type cStep struct {
 	Off   uint64 `json:"off,omitempty"`
 	Len   uint64 `json:"len,omitempty"`
 	Yield int    `json:"yield,omitempty"` // 1: Gosched before the call is stamped, 2: between stamp and call
+	Nil   bool   `json:"nil_slice,omitempty"` // append/atomic with empty data: pass a nil slice instead of an empty one
 }
 
 type cProgram struct {
@@ -77,8 +78,16 @@ func genProgram(seed int64, pool string, idx int) cProgram {
 	if twoDirs {
 		p.Dirs = append(p.Dirs, "e")
 	}
+	// pool C: pool B's mixes with boundary arguments (empty and nil data for Append and
+	// AtomicCreate, zero-length reads, offsets at / beyond / far beyond the end, reads crossing
+	// the end); its choices come from a stream of their own, so pools A and B are unchanged
+	boundary := pool == "C"
+	brng := core.NewRng(seed, fmt.Sprintf("c14-boundary/%d", idx))
 	uid := 0
 	chunk := func(c int) string {
+		if boundary && brng.Chance(35) {
+			return ""
+		}
 		uid++
 		tag := fmt.Sprintf("<%d.%d.%d>", idx, c, uid)
 		n := 1 + rng.Intn(3)
@@ -137,8 +146,8 @@ func genProgram(seed int64, pool string, idx int) cProgram {
 		readerOf[s] = rng.Intn(nc)
 	}
 	// pool B patterns
-	dup := pool == "B" && rng.Chance(60)
-	readA := pool == "B" && (!dup || rng.Chance(40))
+	dup := pool != "A" && rng.Chance(60)
+	readA := pool != "A" && (!dup || rng.Chance(40))
 	if dup {
 		p.Pattern = append(p.Pattern, "several-clients-open-one-sealed-file")
 	}
@@ -155,6 +164,24 @@ func genProgram(seed int64, pool string, idx int) cProgram {
 			if rng.Chance(40) {
 				off = uint64(rng.Intn(size + 2))
 				l = uint64(rng.Intn(size + 8))
+			}
+			if boundary && brng.Chance(60) {
+				switch brng.Intn(6) {
+				case 0:
+					off, l = 0, 0
+				case 1:
+					off, l = uint64(size), 8
+				case 2:
+					off, l = uint64(size)+1+uint64(brng.Intn(5000)), 8
+				case 3:
+					off, l = 1<<40, 1
+				case 4:
+					off, l = uint64(size/2), 0
+				default:
+					if size > 0 {
+						off, l = uint64(size-1), 64
+					}
+				}
 			}
 			st = append(st, cStep{K: "readat", Slot: slot, Off: off, Len: l, Yield: yield()})
 		}
@@ -263,6 +290,27 @@ func genProgram(seed int64, pool string, idx int) cProgram {
 		}
 		p.Conc[c] = prog
 	}
+	if boundary {
+		fix := func(steps []cStep) {
+			for i := range steps {
+				st := &steps[i]
+				switch {
+				case (st.K == "append" || st.K == "atomic") && st.Data == "":
+					st.Nil = brng.Bool()
+				case st.K == "readat" && st.Len == 4096 && brng.Chance(40):
+					// reads of files whose size is not known here: boundary pairs that are such for any small file
+					pairs := [][2]uint64{{0, 0}, {3, 0}, {1 << 40, 1}, {1 << 20, 16}, {0, 1 << 20}}
+					pr := pairs[brng.Intn(len(pairs))]
+					st.Off, st.Len = pr[0], pr[1]
+				}
+			}
+		}
+		for c := range p.Conc {
+			fix(p.Setup[c])
+			fix(p.Conc[c])
+		}
+		p.Pattern = append(p.Pattern, "boundary-arguments")
+	}
 	sort.Strings(p.Pattern)
 	return p
 }
@@ -292,6 +340,7 @@ type cEvent struct {
 	Bytes  string   `json:"bytes,omitempty"`
 	Names  []string `json:"names,omitempty"`
 	Panic  string   `json:"panic,omitempty"`
+	Nil    bool     `json:"nil_slice,omitempty"`
 	Wild   bool     `json:"-"` // checker only: accept whatever result the model gives
 }
 
@@ -324,7 +373,7 @@ type cRunner struct {
 // when the call panicked (the client stops: later steps could be invalid).
 func (cr *cRunner) do(client int, phase string, st cStep, slots map[int]*cSlot, out *[]cEvent) bool {
 	ev := cEvent{Client: client, Phase: phase, K: st.K, Dir: st.Dir, Name: st.Name, Dir2: st.Dir2, Name2: st.Name2,
-		Data: st.Data, Off: st.Off, Len: st.Len}
+		Data: st.Data, Off: st.Off, Len: st.Len, Nil: st.Nil}
 	var sl *cSlot
 	switch st.K {
 	case "append", "readat", "close":
@@ -351,7 +400,11 @@ func (cr *cRunner) do(client int, phase string, st cStep, slots map[int]*cSlot, 
 		case "create":
 			f, ev.OK = cr.fs.Create(st.Dir, st.Name)
 		case "append":
-			cr.fs.Append(sl.real, []byte(st.Data))
+			data := []byte(st.Data)
+			if st.Nil {
+				data = nil
+			}
+			cr.fs.Append(sl.real, data)
 		case "close":
 			sl.ok = false
 			cr.fs.Close(sl.real)
@@ -364,7 +417,11 @@ func (cr *cRunner) do(client int, phase string, st cStep, slots map[int]*cSlot, 
 		case "link":
 			ev.OK = cr.fs.Link(st.Dir, st.Name, st.Dir2, st.Name2)
 		case "atomic":
-			cr.fs.AtomicCreate(st.Dir, st.Name, []byte(st.Data))
+			data := []byte(st.Data)
+			if st.Nil {
+				data = nil
+			}
+			cr.fs.AtomicCreate(st.Dir, st.Name, data)
 		case "list":
 			ev.Names = cr.fs.List(st.Dir)
 			sort.Strings(ev.Names)
